@@ -2,27 +2,27 @@ From Verif Require Import Common C02_Model C02_Spec.
 Open Scope N_scope.
 
 Inductive case :=
-| CSnap (i : snap_in) (snap restart : list obj) (bad : bool)
+| CSnap (i : snap_in) (snap restart : list view) (bad : bool)
 | CUpd (i : upd_in) (os : list (list (N * N) * N)) (reads : list N) (bad : bool)
 | CGrp (named : bool) (keys objs : N) (bad : bool).
 
-Inductive mo := MSnap (s r : list obj) | MUpd (os : list (list (N * N) * N)) (reads : list N) | MGrp (k o : N).
+Inductive mo := MSnap (s r : list view) | MUpd (os : list (list (N * N) * N)) (reads : list N) | MGrp (k o : N).
 
 Definition model_obs (c : case) : mo :=
   match c with
-  | CSnap i _ _ _ => MSnap (snapshot i) (if si_restart i then snapshot_after_restart i else [])
+  | CSnap i _ _ _ => MSnap (snapshot_view i) (if si_restart i then restart_view i else [])
   | CUpd i _ _ _ => let (os, rs) := update i in MUpd os rs
   | CGrp n _ _ _ => let (k, o) := grp n in MGrp k o
   end.
 
-Definition objs_eqb : list obj -> list obj -> bool := list_eqb obj_eqb.
+Definition views_eqb : list view -> list view -> bool := list_eqb view_eqb.
 Definition kv_eqb (a b : N * N) : bool := N.eqb (fst a) (fst b) && N.eqb (snd a) (snd b).
 Definition ctxo_eqb (a b : list (N * N) * N) : bool := list_eqb kv_eqb (fst a) (fst b) && N.eqb (snd a) (snd b).
 
 Definition agrees (c : case) : bool :=
   match c with
-  | CSnap i s r bad => negb bad && objs_eqb (snapshot i) s
-                       && (if si_restart i then objs_eqb (snapshot_after_restart i) r else true)
+  | CSnap i s r bad => negb bad && views_eqb (snapshot_view i) s
+                       && (if si_restart i then views_eqb (restart_view i) r else true)
   | CUpd i os rs bad => let (mos, mrs) := update i in
                         negb bad && list_eqb ctxo_eqb mos os && list_eqb N.eqb mrs rs
   | CGrp n k o bad => let (mk, mo) := grp n in negb bad && N.eqb mk k && N.eqb mo o
@@ -30,7 +30,7 @@ Definition agrees (c : case) : bool :=
 
 Definition spec_ok (c : case) : bool :=
   match c with
-  | CSnap i s r bad => P_snap i s r bad
+  | CSnap i s r bad => P_view i s r bad
   | CUpd i os rs bad => P_upd i os rs bad
   | CGrp _ k o bad => P_grp k o bad
   end.
